@@ -1117,3 +1117,46 @@ func ruleCreatedStreamUsesLoggedConfig(c *eng.Ctx) {
 		c.Check(len(aa) >= 5 && fromOp(aa[4]), "a created stream's partitions take their settings from the logged operation", c.Pos(ap), "addPartition(…, protoStream.GetConfig())", "addPartition is given "+eng.Describe(aa[len(aa)-1])+" as the partition's settings, not the configuration carried by the CREATE_STREAM entry being applied: the commit log is opened with other settings (retention, compaction, concurrency control, encryption) than the stream was created with")
 	}
 }
+
+// ruleCreatePreconditionKeysOnTheStreamName (R14.5 extension, shared with C06): the existence test that decides whether a
+// CREATE_STREAM entry may be logged looks the stream up under the name the entry will be applied under
+// (AddStream registers m.streams[protoStream.Name]). A test keyed on anything else in the request — the first partition's
+// Stream field — lets an inconsistent request through; its application then fails with ErrStreamExists, and an apply error is
+// fatal on every server, on every replay.
+func ruleCreatePreconditionKeysOnTheStreamName(c *eng.Ctx) {
+	p := c.P
+	fn := c.Fn("server.(*metadataAPI).checkCreateStreamPreconditions")
+	if fn == nil {
+		return
+	}
+	calls := eng.CallsIn(fn, "server.metadataAPI.GetStream")
+	if len(calls) == 0 {
+		c.Unresolved("the existence test (GetStream) in checkCreateStreamPreconditions")
+		return
+	}
+	isStreamName := func(v ssa.Value) bool {
+		f, base := eng.FieldRead(v)
+		if f == nil || f.Name() != "Name" {
+			// protoStream.GetName()
+			if call := eng.AsCall(eng.Strip(v)); call != nil && strings.HasSuffix(eng.CalleeRef(&call.Call), "Stream.GetName") && len(call.Call.Args) == 1 {
+				base = call.Call.Args[0]
+			} else {
+				return false
+			}
+		}
+		f2, _ := eng.FieldRead(base)
+		if f2 != nil && f2.Name() == "Stream" {
+			return true
+		}
+		if call := eng.AsCall(eng.Strip(base)); call != nil && strings.HasSuffix(eng.CalleeRef(&call.Call), "CreateStreamOp.GetStream") {
+			return true
+		}
+		return false
+	}
+	for _, cs := range calls {
+		args := eng.AllArgs(cs.Common())
+		arg := args[len(args)-1]
+		c.Check(isStreamName(arg), "the create precondition looks the stream up under its own name", c.Pos(cs), "GetStream(op.CreateStreamOp.Stream.Name): the key AddStream registers the stream under", "the existence test of CREATE_STREAM looks up "+eng.Describe(arg)+", not the name the entry is applied under: a request whose partitions name another stream passes the test, is logged, and its application fails with ErrStreamExists — an apply error, which stops every server and recurs on every replay")
+	}
+	_ = p
+}
